@@ -43,3 +43,15 @@ def default_tmax_follows(edit, f_space, opt):
         return False
     back = rdscript_from_dict(rdscript_to_dict(sc))
     return float(back.t_max.value) == last and sc.copy().t_max.value == last
+
+
+def step_count_in_units(u, g, opt, tu):
+    """t_max, time step and sampling interval written with their own time unit under a script in another units system: what reaches
+    the native engine stands in the same ratios (t_max / dt = 20 steps, interval / dt = 4 steps) - grid and graph"""
+    from harness.c04lib import KEYS
+    option = ["euler", "tauleap", "gillespie"][opt % 3]
+    unit, fac = [("ms", 1e-3), ("min", 60.0), ("h", 3600.0), ("s", 1.0)][tu % 4]
+    sc = RDScript(mk_system(0, g, 0), [0.0], time_step="%r %s" % (0.5 / fac, unit), t_max="%r %s" % (10.0 / fac, unit), sampling_policy="on_interval",
+                  sampling_interval="%r %s" % (2.0 / fac, unit), units_system=SYS[KEYS[u % 11]])
+    a = _abi(sc, option)
+    return abs(a["t_max"] / a["dt"] - 20.0) <= 1e-9 and abs(a["interval"] / a["dt"] - 4.0) <= 1e-9
